@@ -679,21 +679,28 @@ theorem cls_scalar_of_numer_nil (b : Desc) (hw : WF b) (hq : b.isQ = true) (hb :
   cases hc : b.cls <;> rw [hc] at this <;> simp [Cls.nrank] at this
   exact absurd hc hb
 
-/-- `Matrix3.__mul__`: a scalar-like right operand (raw, Scalar or Boolean) is returned unchanged -/
+/-- rotating a scalar-like operand `s` by a Matrix3 of leading shape `ms`: the operand itself, broadcast to the common
+    leading shape -/
+def rotScalarSpec (ms : Shape) (s : Desc) : Option Shp :=
+  (bcast ms s.shape).map fun out => ⟨s.cls, out, [], s.denom⟩
+
+/-- `Matrix3.__mul__`: a scalar-like right operand (raw, Scalar or Boolean) is returned unchanged, broadcast over the
+    leading axes -/
 theorem matrix3Mul_outcome (a b : Desc) (ha : a.isQ = true) (hwb : WF b) :
     outcome (matrix3Mul a b) =
-      if (readScalar b).numer = [] then some ⟨(readScalar b).cls, (readScalar b).shape, [], (readScalar b).denom⟩
+      if (readScalar b).numer = [] then rotScalarSpec a.shape (readScalar b)
       else mulCore a b := by
   have hnb : ∀ hq : b.isQ = true, b.cls = .boolean → (readScalar b).numer = [] := by
     intro hq hb
     rw [readScalar_qube b hq]
     exact numer_nil_of_boolean b hwb hq hb
-  unfold matrix3Mul
+  unfold matrix3Mul rotScalarSpec
   by_cases hq : b.isQ = true
   · simp only [hq, if_true, pure, Except.pure, bind, Except.bind, readScalar_qube b hq]
     by_cases hn : b.numer = []
     · have : (b.nrankV == 0) = true := (nrankV_eq _).2 hn
-      simp [this, hn, outcome, Res.shp]
+      simp only [this, if_true, hn]
+      cases bcast a.shape b.shape <;> simp [outcome, Res.shp, throw, throwThe, MonadExceptOf.throw]
     · have : (b.nrankV == 0) = false := by
         cases h : (b.nrankV == 0) with
         | false => rfl
@@ -707,7 +714,8 @@ theorem matrix3Mul_outcome (a b : Desc) (ha : a.isQ = true) (hwb : WF b) :
   · have hq' : b.isQ = false := by simpa using hq
     obtain ⟨f1, f2, f3, f4, f5, f6⟩ := readScalar_raw_fields b hq'
     have : ((readScalar b).nrankV == 0) = true := (nrankV_eq _).2 f1
-    simp [hq', asScalar_raw b hq', bind, Except.bind, pure, Except.pure, this, f1, outcome, Res.shp]
+    simp only [hq', Bool.false_eq_true, if_false, asScalar_raw b hq', bind, Except.bind, this, if_true, f1]
+    cases bcast a.shape (readScalar b).shape <;> simp [outcome, Res.shp, throw, throwThe, MonadExceptOf.throw, pure, Except.pure]
 
 theorem scaleSpec_swap_scalar (A b : Desc) (hA : A.cls = .scalar) (hAn : A.numer = []) (hAd : A.denom = [])
     (hb : b.cls = .scalar) (hbn : b.numer = []) : scaleSpec A b = scaleSpec b A := by
@@ -922,10 +930,9 @@ def addSpec (a b : Desc) : Option Shp :=
   else if a.isQ then rawAddSpec a b else rawAddSpec b a
 
 /-- `a * b` (operands after `normB`; `b0` the right operand before it): `Matrix3 * scalar-like` returns the right operand
-    (documented special case), otherwise `mulCore` -/
+    (documented special case) broadcast to the common leading shape, otherwise `mulCore` -/
 def mulSpec (a b b0 : Desc) : Option Shp :=
-  if a.isQ && a.cls == .matrix3 && (readScalar b0).numer == [] then
-    some ⟨(readScalar b0).cls, (readScalar b0).shape, [], (readScalar b0).denom⟩
+  if a.isQ && a.cls == .matrix3 && (readScalar b0).numer == [] then rotScalarSpec a.shape (readScalar b0)
   else mulCore a b
 
 def coreSpec (op : OpSym) (a b b0 : Desc) : Option (Option Shp) :=
